@@ -80,20 +80,20 @@ package bip39
 
 //@ define prefixInverse(m, l, k) = m != 0 && forallS(w, dom(m, w) == (0 <= widx(l, w) && widx(l, w) < k) && implies(dom(m, w), mval(m, w) == widx(l, w)))
 
-//@ invariant [C02,C03,C08,C12] chineseSimplified-map: implies(done(chineseSimplifiedOnce), isInverse(chineseSimplifiedMapping, ChineseSimplified))
-//@ invariant [C02,C03,C08,C12] chineseTraditional-map: implies(done(chineseTraditionalOnce), isInverse(chineseTraditionalMapping, ChineseTraditional))
-//@ invariant [C02,C03,C08,C12] english-map: implies(done(englishOnce), isInverse(englishMapping, English))
-//@ invariant [C02,C03,C08,C12] french-map: implies(done(frenchOnce), isInverse(frenchMapping, French))
-//@ invariant [C02,C03,C08,C12] italian-map: implies(done(italianOnce), isInverse(italianMapping, Italian))
-//@ invariant [C02,C03,C08,C12] japanese-map: implies(done(japaneseOnce), isInverse(japaneseMapping, Japanese))
-//@ invariant [C02,C03,C08,C12] spanish-map: implies(done(spanishOnce), isInverse(spanishMapping, Spanish))
-//@ invariant [C02,C03,C08,C12] korean-map: implies(done(koreanOnce), isInverse(koreanMapping, Korean))
-//@ invariant [C02,C03,C08,C12] czech-map: implies(done(czechOnce), isInverse(czechMapping, Czech))
-//@ invariant [C02,C03,C08,C12] portuguese-map: implies(done(portugueseOnce), isInverse(portugueseMapping, Portuguese))
+//@ invariant [C02,C03,C08,C12,C13] chineseSimplified-map: implies(done(chineseSimplifiedOnce), isInverse(chineseSimplifiedMapping, ChineseSimplified)) && implies(!done(chineseSimplifiedOnce), chineseSimplifiedMapping == nil)
+//@ invariant [C02,C03,C08,C12,C13] chineseTraditional-map: implies(done(chineseTraditionalOnce), isInverse(chineseTraditionalMapping, ChineseTraditional)) && implies(!done(chineseTraditionalOnce), chineseTraditionalMapping == nil)
+//@ invariant [C02,C03,C08,C12,C13] english-map: implies(done(englishOnce), isInverse(englishMapping, English)) && implies(!done(englishOnce), englishMapping == nil)
+//@ invariant [C02,C03,C08,C12,C13] french-map: implies(done(frenchOnce), isInverse(frenchMapping, French)) && implies(!done(frenchOnce), frenchMapping == nil)
+//@ invariant [C02,C03,C08,C12,C13] italian-map: implies(done(italianOnce), isInverse(italianMapping, Italian)) && implies(!done(italianOnce), italianMapping == nil)
+//@ invariant [C02,C03,C08,C12,C13] japanese-map: implies(done(japaneseOnce), isInverse(japaneseMapping, Japanese)) && implies(!done(japaneseOnce), japaneseMapping == nil)
+//@ invariant [C02,C03,C08,C12,C13] spanish-map: implies(done(spanishOnce), isInverse(spanishMapping, Spanish)) && implies(!done(spanishOnce), spanishMapping == nil)
+//@ invariant [C02,C03,C08,C12,C13] korean-map: implies(done(koreanOnce), isInverse(koreanMapping, Korean)) && implies(!done(koreanOnce), koreanMapping == nil)
+//@ invariant [C02,C03,C08,C12,C13] czech-map: implies(done(czechOnce), isInverse(czechMapping, Czech)) && implies(!done(czechOnce), czechMapping == nil)
+//@ invariant [C02,C03,C08,C12,C13] portuguese-map: implies(done(portugueseOnce), isInverse(portugueseMapping, Portuguese)) && implies(!done(portugueseOnce), portugueseMapping == nil)
 
 //@ func Language.mapping$writes(chineseSimplifiedMapping)
 //@   assigns chineseSimplifiedMapping
-//@   ensures [C02,C03,C08,C13] built: isInverse(chineseSimplifiedMapping, ChineseSimplified) && fresh(chineseSimplifiedMapping)
+//@   ensures [C02,C03,C08,C10,C13,C15] built: isInverse(chineseSimplifiedMapping, ChineseSimplified) && fresh(chineseSimplifiedMapping)
 //@   loop 1 assigns MDom[chineseSimplifiedMapping], MVal[chineseSimplifiedMapping]
 //@   loop 1 invariant range: -1 <= rangeindex && rangeindex < 2048 && fresh(chineseSimplifiedMapping)
 //@   loop 1 invariant prefix: prefixInverse(chineseSimplifiedMapping, ChineseSimplified, rangeindex+1)
@@ -101,7 +101,7 @@ package bip39
 
 //@ func Language.mapping$writes(chineseTraditionalMapping)
 //@   assigns chineseTraditionalMapping
-//@   ensures [C02,C03,C08,C13] built: isInverse(chineseTraditionalMapping, ChineseTraditional) && fresh(chineseTraditionalMapping)
+//@   ensures [C02,C03,C08,C10,C13,C15] built: isInverse(chineseTraditionalMapping, ChineseTraditional) && fresh(chineseTraditionalMapping)
 //@   loop 1 assigns MDom[chineseTraditionalMapping], MVal[chineseTraditionalMapping]
 //@   loop 1 invariant range: -1 <= rangeindex && rangeindex < 2048 && fresh(chineseTraditionalMapping)
 //@   loop 1 invariant prefix: prefixInverse(chineseTraditionalMapping, ChineseTraditional, rangeindex+1)
@@ -109,7 +109,7 @@ package bip39
 
 //@ func Language.mapping$writes(englishMapping)
 //@   assigns englishMapping
-//@   ensures [C02,C03,C08,C13] built: isInverse(englishMapping, English) && fresh(englishMapping)
+//@   ensures [C02,C03,C08,C10,C13,C15] built: isInverse(englishMapping, English) && fresh(englishMapping)
 //@   loop 1 assigns MDom[englishMapping], MVal[englishMapping]
 //@   loop 1 invariant range: -1 <= rangeindex && rangeindex < 2048 && fresh(englishMapping)
 //@   loop 1 invariant prefix: prefixInverse(englishMapping, English, rangeindex+1)
@@ -117,7 +117,7 @@ package bip39
 
 //@ func Language.mapping$writes(frenchMapping)
 //@   assigns frenchMapping
-//@   ensures [C02,C03,C08,C13] built: isInverse(frenchMapping, French) && fresh(frenchMapping)
+//@   ensures [C02,C03,C08,C10,C13,C15] built: isInverse(frenchMapping, French) && fresh(frenchMapping)
 //@   loop 1 assigns MDom[frenchMapping], MVal[frenchMapping]
 //@   loop 1 invariant range: -1 <= rangeindex && rangeindex < 2048 && fresh(frenchMapping)
 //@   loop 1 invariant prefix: prefixInverse(frenchMapping, French, rangeindex+1)
@@ -125,7 +125,7 @@ package bip39
 
 //@ func Language.mapping$writes(italianMapping)
 //@   assigns italianMapping
-//@   ensures [C02,C03,C08,C13] built: isInverse(italianMapping, Italian) && fresh(italianMapping)
+//@   ensures [C02,C03,C08,C10,C13,C15] built: isInverse(italianMapping, Italian) && fresh(italianMapping)
 //@   loop 1 assigns MDom[italianMapping], MVal[italianMapping]
 //@   loop 1 invariant range: -1 <= rangeindex && rangeindex < 2048 && fresh(italianMapping)
 //@   loop 1 invariant prefix: prefixInverse(italianMapping, Italian, rangeindex+1)
@@ -133,7 +133,7 @@ package bip39
 
 //@ func Language.mapping$writes(japaneseMapping)
 //@   assigns japaneseMapping
-//@   ensures [C02,C03,C08,C13] built: isInverse(japaneseMapping, Japanese) && fresh(japaneseMapping)
+//@   ensures [C02,C03,C08,C10,C13,C15] built: isInverse(japaneseMapping, Japanese) && fresh(japaneseMapping)
 //@   loop 1 assigns MDom[japaneseMapping], MVal[japaneseMapping]
 //@   loop 1 invariant range: -1 <= rangeindex && rangeindex < 2048 && fresh(japaneseMapping)
 //@   loop 1 invariant prefix: prefixInverse(japaneseMapping, Japanese, rangeindex+1)
@@ -141,7 +141,7 @@ package bip39
 
 //@ func Language.mapping$writes(spanishMapping)
 //@   assigns spanishMapping
-//@   ensures [C02,C03,C08,C13] built: isInverse(spanishMapping, Spanish) && fresh(spanishMapping)
+//@   ensures [C02,C03,C08,C10,C13,C15] built: isInverse(spanishMapping, Spanish) && fresh(spanishMapping)
 //@   loop 1 assigns MDom[spanishMapping], MVal[spanishMapping]
 //@   loop 1 invariant range: -1 <= rangeindex && rangeindex < 2048 && fresh(spanishMapping)
 //@   loop 1 invariant prefix: prefixInverse(spanishMapping, Spanish, rangeindex+1)
@@ -149,7 +149,7 @@ package bip39
 
 //@ func Language.mapping$writes(koreanMapping)
 //@   assigns koreanMapping
-//@   ensures [C02,C03,C08,C13] built: isInverse(koreanMapping, Korean) && fresh(koreanMapping)
+//@   ensures [C02,C03,C08,C10,C13,C15] built: isInverse(koreanMapping, Korean) && fresh(koreanMapping)
 //@   loop 1 assigns MDom[koreanMapping], MVal[koreanMapping]
 //@   loop 1 invariant range: -1 <= rangeindex && rangeindex < 2048 && fresh(koreanMapping)
 //@   loop 1 invariant prefix: prefixInverse(koreanMapping, Korean, rangeindex+1)
@@ -157,7 +157,7 @@ package bip39
 
 //@ func Language.mapping$writes(czechMapping)
 //@   assigns czechMapping
-//@   ensures [C02,C03,C08,C13] built: isInverse(czechMapping, Czech) && fresh(czechMapping)
+//@   ensures [C02,C03,C08,C10,C13,C15] built: isInverse(czechMapping, Czech) && fresh(czechMapping)
 //@   loop 1 assigns MDom[czechMapping], MVal[czechMapping]
 //@   loop 1 invariant range: -1 <= rangeindex && rangeindex < 2048 && fresh(czechMapping)
 //@   loop 1 invariant prefix: prefixInverse(czechMapping, Czech, rangeindex+1)
@@ -165,7 +165,7 @@ package bip39
 
 //@ func Language.mapping$writes(portugueseMapping)
 //@   assigns portugueseMapping
-//@   ensures [C02,C03,C08,C13] built: isInverse(portugueseMapping, Portuguese) && fresh(portugueseMapping)
+//@   ensures [C02,C03,C08,C10,C13,C15] built: isInverse(portugueseMapping, Portuguese) && fresh(portugueseMapping)
 //@   loop 1 assigns MDom[portugueseMapping], MVal[portugueseMapping]
 //@   loop 1 invariant range: -1 <= rangeindex && rangeindex < 2048 && fresh(portugueseMapping)
 //@   loop 1 invariant prefix: prefixInverse(portugueseMapping, Portuguese, rangeindex+1)
@@ -173,8 +173,8 @@ package bip39
 
 //@ func Language.mapping
 //@   assigns mappings
-//@   ensures [C02,C03,C08,C10,C15] supported: implies(supported(lan), isInverse(result, lan))
-//@   ensures [C03,C14,C15] unsupported: implies(!supported(lan), result == nil)
+//@   ensures [C02,C03,C08,C10,C13,C15] supported: implies(supported(lan), isInverse(result, lan))
+//@   ensures [C03,C13,C14,C15] unsupported: implies(!supported(lan), result == nil)
 // ---------------------------------------------------------------------------
 // validation
 
@@ -192,6 +192,7 @@ package bip39
 //@   ensures [C02,C03,C10,C13,C15] F2: implies(validCount(n) && !allKnown(t, lg, n), result != nil && !is(result, ErrWordLen) && !is(result, ErrChecksumIncorrect) && exists(j, 0, n, widx(lg, sat(t, j)) < 0 && contains(msg(result), sat(t, j))))
 //@   ensures [C02,C03,C10,C13,C15] F3: implies(validCount(n) && allKnown(t, lg, n) && !checksumOK(t, lg, n), result == ErrChecksumIncorrect)
 //@   ensures [C02,C03,C10,C13,C15] F4: implies(validCount(n) && allKnown(t, lg, n) && checksumOK(t, lg, n), result == nil)
+//@   ensures [C03] S: implies(result == nil, validTokens(fields(nfkd(mnemonic)), lg))
 //@   loop 1 assigns BigVal[entBig]
 //@   loop 1 invariant range: -1 <= rangeindex && rangeindex < wordCount && wordCount == n && validCount(n) && len(wordList) == n
 //@   loop 1 invariant tokens: seq(wordList) == t && off(wordList) == 0
